@@ -4,6 +4,7 @@ pub mod c01;
 pub mod c02;
 pub mod c03;
 pub mod c05;
+pub mod c06;
 
 pub fn run(ctx: &mut Ctx) {
     // corpus replay tier first
@@ -13,6 +14,7 @@ pub fn run(ctx: &mut Ctx) {
         "C02" => c02::run_check(ctx),
         "C03" => c03::run_check(ctx),
         "C05" => c05::run_check(ctx),
+        "C06" => c06::run_check(ctx),
         other => {
             eprintln!("unknown property {}", other);
             std::process::exit(2);
@@ -26,6 +28,7 @@ pub fn replay(ctx: &mut Ctx, case: &serde_json::Value) {
         "C02" => c02::replay(ctx, case),
         "C03" => c03::replay(ctx, case),
         "C05" => c05::replay(ctx, case),
+        "C06" => c06::replay(ctx, case),
         other => {
             eprintln!("unknown property {}", other);
             std::process::exit(2);
